@@ -307,7 +307,9 @@ def run_case(case):
         return evs
     # random history
     w = World(dendropy, case["cs"])
-    labels = LABELS_RANDOM
+    # small alphabet: duplicates and case variants abound, so lookups have several matches whose order
+    # changes under sort/reverse/relabel (first-match semantics); large alphabet: many distinct members
+    labels = LABELS_MODEL if case.get("alphabet") == "small" else LABELS_RANDOM
     evs = []
     for _ in range(case["nops"]):
         mem = [w.tid(t) for t in w.ns._taxa]
@@ -378,7 +380,8 @@ def run(ctx):
     cases, nedges = model_cases(ctx, "MC_TaxonNamespace_replay_quick.cfg" if quick else "MC_TaxonNamespace_replay_thorough.cfg")
     # 3. random histories on larger namespaces
     nrand = 150 if quick else 3000
-    rnd = [{"kind": "random", "seed": ctx.seed * 1000003 + i, "cs": bool(i % 2), "nops": 30 if quick else 60} for i in range(nrand)]
+    rnd = [{"kind": "random", "seed": ctx.seed * 1000003 + i, "cs": bool(i % 2), "nops": 30 if quick else 60,
+            "alphabet": "small" if i % 2 else "large"} for i in range(2 * nrand)]
     driven = ctx.drive(cases + rnd, run_case)
     ctx.judge("Trace_TaxonNamespace", driven)
     for case, evs in driven:
@@ -386,7 +389,7 @@ def run(ctx):
             if e["action"] not in ("QMask", "QLookup"):
                 ctx.add_nontrivial([e["action"], e.get("args"), e["pre"]["members"], e["pre"]["idx"], e["pre"]["labels"], e["pre"]["cs"], e["pre"]["mut"]])
     ctx.rule = ("cases = one real execution per transition of the dumped TLC state graph of MC_TaxonNamespace "
-                "(%d transitions) + %d seeded random histories; distinct_nontrivial counts distinct "
+                "(%d transitions) + 2 x %d seeded random histories (large and small label alphabet); distinct_nontrivial counts distinct "
                 "(mutating action, arguments, abstract pre-state) triples actually executed" % (nedges, nrand))
     ctx.exhaustive = False
     ctx.extra["model_transitions_replayed"] = nedges
